@@ -965,6 +965,276 @@ def ep_degenerate_probe():
     return None
 
 
+# ------------------------------------------------------------------ call histories on long-lived objects
+# A history is a JSON list of steps executed in order on a workspace of named samples (Python list objects
+# that stay THE SAME objects for the whole history) and on one long-lived estimator object per
+# (class, constructor arguments):
+#   build / refill        create a sample / replace the content of the same list object (other size, other flow)
+#   reverse, perm-events, perm-particles, rotate (through the px/py setters), replace-event, weights
+#                         in-place mutations of the sample between calls
+#   call                  integrated_flow / differential_flow of a long-lived object on workspace samples
+# After every call the result is compared with a FRESH object on a deep copy of the current content.  Same
+# content, same code: any difference is state carried by the object (or by the argument objects).
+STATEFUL = ["ReactionPlaneFlow", "ScalarProductFlow", "EventPlaneFlow"]
+SAMPLE_KINDS = {           # (events, particles per event, flow strength v)
+    "small": ((2, 5), (3, 9), (0.0, 0.3)),
+    "dilute-weak": ((12, 25), (10, 20), (0.1, 0.2)),
+    "medium": ((6, 12), (30, 60), (0.15, 0.3)),
+    "dense-strong": ((4, 7), (120, 260), (0.25, 0.4)),
+}
+
+
+def gen_sample(rng, kind, n, nev=None, weights=False):
+    (e0, e1), (m0, m1), (v0, v1) = SAMPLE_KINDS[kind]
+    v = rng.uniform(v0, v1)
+    nev = nev or rng.randint(e0, e1)
+    return [gen_ev(rng, m0, m1, "mixed" if weights else "unset", split=True, mod=(n, v)) for _ in range(nev)]
+
+
+def _ws_particles(events):
+    return [[P(tuple(t)) for t in ev] for ev in events]
+
+
+def run_history(steps, stop_at_first=True):
+    """execute a history; returns None or (key, what, detail) for the first call whose result on the long-lived
+    object differs from a fresh object on a deep copy of the same content"""
+    import copy
+    ws, objs = {}, {}
+    for i, st in enumerate(steps):
+        op = st["op"]
+        if op == "build":
+            ws[st["slot"]] = _ws_particles(st["events"])
+        elif op == "refill":
+            ws[st["slot"]][:] = _ws_particles(st["events"])
+        elif op == "reverse":
+            ws[st["slot"]].reverse()
+        elif op == "perm-events":
+            x = ws[st["slot"]]
+            x[:] = [x[j] for j in st["perm"]]
+        elif op == "perm-particles":
+            ev = ws[st["slot"]][st["event"]]
+            ev[:] = [ev[j] for j in st["perm"]]
+        elif op == "rotate":
+            for ev, a in zip(ws[st["slot"]], st["angles"]):
+                c, sn = math.cos(a), math.sin(a)
+                for q in ev:
+                    q.px, q.py = c * q.px - sn * q.py, sn * q.px + c * q.py
+        elif op == "replace-event":
+            new_ev = [P(tuple(t)) for t in st["particles"]]
+            if st.get("in_place"):
+                ws[st["slot"]][st["event"]][:] = new_ev
+            else:
+                ws[st["slot"]][st["event"]] = new_ev
+        elif op == "weights":
+            for q, w in zip(ws[st["slot"]][st["event"]], st["weights"]):
+                q.weight = w
+        elif op == "call":
+            name, ctor = st["est"], tuple(st["ctor"])
+            key = (name, ctor)
+            if key not in objs:
+                objs[key] = _new(name, *ctor)
+            flow, ref = ws[st["flow"]], ws[st.get("ref") or st["flow"]]
+            cf = copy.deepcopy(flow)
+            cr = cf if ref is flow else copy.deepcopy(ref)
+
+            def do(obj, a, b):
+                with np.errstate(all="ignore"):
+                    try:
+                        if name == "ReactionPlaneFlow":
+                            if st["method"] == "integrated":
+                                return flat(complex(obj.integrated_flow(a)))
+                            return flat([complex(z) for z in obj.differential_flow(a, st["bins"], st["sel"])])
+                        if st["method"] == "integrated":
+                            r = obj.integrated_flow(a, b, st["self_corr"])
+                            return [float(r[0]), float(r[1])]
+                        r = obj.differential_flow(a, st["bins"], st["sel"], b, st["self_corr"])
+                        return flat([(t[0], t[1]) for t in r])
+                    except Exception as e:
+                        return "raises " + type(e).__name__
+            got = do(objs[key], flow, ref)
+            exp = do(_new(name, *ctor), cf, cr)
+            if not _same_result(got, exp):
+                return (f"instance-reuse-{name}-{st['method']}_flow",
+                        f"step {i}: {name}{ctor}.{st['method']}_flow on the long-lived object gives {got}, a fresh object on a "
+                        f"deep copy of the same content gives {exp} (history of {i + 1} steps: "
+                        f"{[x['op'] if x['op'] != 'call' else x['est'][:2] + ':' + x['method'][:4] for x in steps[:i + 1]]})",
+                        dict(expected=exp, observed=got, step=i))
+        else:
+            raise ValueError("unknown step " + op)
+    return None
+
+
+def _same_result(a, b):
+    if isinstance(a, str) or isinstance(b, str):
+        return a == b
+    if len(a) != len(b):
+        return False
+    for i, (x, y) in enumerate(zip(a, b)):
+        if vclose(x, y, 1e-9):
+            continue
+        # an error estimate sqrt(v^2 - <v^2>) whose radicand is rounding noise
+        if i % 2 == 1 and abs((x * x if math.isfinite(x) else 0.0) - (y * y if math.isfinite(y) else 0.0)) \
+                <= 1e-9 * max(a[i - 1] ** 2 if math.isfinite(a[i - 1]) else 0.0, 1e-300) and not (math.isinf(x) or math.isinf(y)):
+            continue
+        return False
+    return True
+
+
+def gen_history(rng, scripted=None):
+    """a call history.  scripted = estimator name: the fixed battery (every mutation kind once, then samples of
+    strongly different size / flow in the same list object); otherwise a random walk over the same moves."""
+    n = rng.randint(1, 4) if scripted is None else 2
+    ests = [scripted] if scripted else [rng.choice(STATEFUL) for _ in range(rng.randint(1, 2))]
+    ctors = {}
+    for e in set(ests):
+        if e == "ReactionPlaneFlow":
+            ctors[e] = [[n]]
+        else:
+            ws_ = [rng.choice(["pT", "pT2", "pTn"]), rng.choice(WEIGHTS)]
+            ctors[e] = [[n, ws_[0], rng.choice([0.0, 0.1])], [n, ws_[1], rng.choice([0.0, 0.5])]]
+    steps = []
+    kinds = list(SAMPLE_KINDS)
+    cur = {"kind": rng.choice(["small", "dilute-weak"]) if scripted is None else "dilute-weak"}
+    content = gen_sample(rng, cur["kind"], n, weights=rng.random() < 0.5)
+    steps.append(dict(op="build", slot="A", events=content, kind=cur["kind"]))
+    state = {"A": [list(e) for e in content]}
+
+    def call(toggle):
+        e = rng.choice(ests)
+        ctor = ctors[e][toggle % len(ctors[e])] if scripted else rng.choice(ctors[e])
+        method = ("integrated", "differential")[toggle % 2] if scripted else rng.choice(["integrated", "differential"])
+        sel = rng.choice(DOCUMENTED)
+        lo, hi = (0.0, 3.2) if sel == "pT" else (-2.2, 2.2)
+        bins = [lo] + sorted(rng.uniform(lo, hi) for _ in range(rng.randint(0, 2))) + [hi]
+        steps.append(dict(op="call", est=e, ctor=ctor, method=method, flow="A", ref="A",
+                          self_corr=(toggle // 2) % 2 == 0 if scripted else rng.random() < 0.5, bins=bins, sel=sel))
+
+    def mutate(kind):
+        evs = state["A"]
+        nev = len(evs)
+        if kind == "reverse":
+            steps.append(dict(op="reverse", slot="A"))
+            evs.reverse()
+        elif kind == "perm-events":
+            perm = list(range(nev))
+            rng.shuffle(perm)
+            steps.append(dict(op="perm-events", slot="A", perm=perm))
+            evs[:] = [evs[j] for j in perm]
+        elif kind == "perm-particles":
+            i = rng.randrange(nev)
+            perm = list(range(len(evs[i])))
+            rng.shuffle(perm)
+            steps.append(dict(op="perm-particles", slot="A", event=i, perm=perm))
+            evs[i] = [evs[i][j] for j in perm]
+        elif kind == "rotate":
+            steps.append(dict(op="rotate", slot="A", angles=[rng.uniform(-3, 3) for _ in range(nev)]))
+        elif kind == "replace-event":
+            i = rng.randrange(nev)
+            newp = gen_ev(rng, 3, 12, "unset", split=True, mod=(n, 0.3))
+            steps.append(dict(op="replace-event", slot="A", event=i, particles=newp, in_place=rng.random() < 0.5))
+            evs[i] = list(newp)
+        elif kind == "weights":
+            i = rng.randrange(nev)
+            steps.append(dict(op="weights", slot="A", event=i, weights=[rng.choice([0.5, 1.0, 2.0, 4.0]) for _ in evs[i]]))
+        elif kind in ("refill", "build"):
+            k2 = rng.choice([k for k in kinds if k != cur["kind"]]) if scripted is None else \
+                ("dense-strong" if cur["kind"] != "dense-strong" else "dilute-weak")
+            cur["kind"] = k2
+            content2 = gen_sample(rng, k2, n, weights=rng.random() < 0.3)
+            steps.append(dict(op=kind, slot="A", events=content2, kind=k2))
+            state["A"] = [list(e) for e in content2]
+    if scripted:
+        t = 0
+        for m in ["reverse", "rotate", "perm-particles", "perm-events", "weights", "replace-event",
+                  "refill", "refill", "build", "refill"]:
+            call(t); t += 1
+            call(t); t += 1
+            mutate(m)
+        call(t)
+        call(t + 1)
+    else:
+        moves = ["reverse", "perm-events", "perm-particles", "rotate", "replace-event", "weights", "refill", "refill", "build"]
+        for t in range(rng.randint(4, 9)):
+            call(t)
+            if rng.random() < 0.5:
+                call(t + 1)
+            mutate(rng.choice(moves))
+        call(0)
+    return steps
+
+
+def shrink_history(steps, key):
+    """drop steps, then events of the samples, while a failure with the same key remains"""
+    def fails(h):
+        try:
+            r = run_history(h)
+        except Exception:
+            return None
+        return r if r and r[0] == key else None
+    r = fails(steps)
+    if not r:
+        return steps, r
+    cur = steps[:r[2]["step"] + 1]
+    changed = True
+    while changed:
+        changed = False
+        for i in range(len(cur) - 2, -1, -1):
+            cand = cur[:i] + cur[i + 1:]
+            rr = fails(cand)
+            if rr:
+                cur = cand[:rr[2]["step"] + 1]
+                r = rr
+                changed = True
+                break
+    # smaller samples (only when nothing indexes into them any more)
+    if not any(st["op"] in ("perm-events", "perm-particles", "replace-event", "weights") for st in cur):
+        for i, st in enumerate(cur):
+            if st["op"] in ("build", "refill"):
+                while len(st["events"]) > 1:
+                    cand = [dict(x) for x in cur]
+                    cand[i]["events"] = st["events"][:len(st["events"]) // 2]
+                    rr = fails(cand)
+                    if not rr:
+                        break
+                    cur, r, st = cand, rr, cand[i]
+    return cur, fails(cur) or r
+
+
+def search_histories(ctx, budget_s):
+    import random
+    t0 = time.time()
+    found = set()
+    nh = 0
+
+    def one(steps, tag):
+        nonlocal nh
+        nh += 1
+        ctx.count("oracle/history/" + tag)
+        ctx.count("oracle/history/calls", sum(1 for x in steps if x["op"] == "call"))
+        for x in steps:
+            if x["op"] != "call":
+                ctx.count("oracle/history/move/" + x["op"] + ("/" + x["kind"] if "kind" in x else ""))
+        ctx.case(("history", tag, nh, len(steps)), True)
+        try:
+            r = run_history(steps)
+        except Exception as e:
+            r = ("history-raises", f"executing a call history raised {type(e).__name__}: {e}", dict(step=len(steps) - 1))
+        if r and r[0] not in found:
+            found.add(r[0])
+            if r[0] != "history-raises":
+                steps, r2 = shrink_history(steps, r[0])
+                r = r2 or r
+            ctx.violation(r[0], r[1], dict(input=dict(steps=steps), expected=r[2].get("expected"),
+                                           observed=r[2].get("observed"),
+                                           how_to_replay="./check C12 --replay <this file>  (re-executes the call history in a new process)"))
+    # the fixed battery does not depend on VERIF_SEED: every estimator sees every move once
+    for e in STATEFUL:
+        one(gen_history(random.Random("C12-battery-" + e), scripted=e), "battery/" + e)
+    while time.time() - t0 < budget_s and len(found) < 4:
+        one(gen_history(ctx.rng), "random")
+    ctx.cov["oracle_histories"] = nh
+
+
 def search(ctx, budget_s):
     rng = ctx.rng
     t0 = time.time()
@@ -981,6 +1251,8 @@ def search(ctx, budget_s):
             _report(ctx, c["case"], c["aux"], res)
     for key, what, detail in oracle_reuse_tables():
         ctx.violation(key, what, dict(input=detail, how_to_replay="./check C12 --replay <this file>"))
+    search_histories(ctx, 90 if ctx.thorough else 10)
+    t0 = time.time()
     found = set()
     limit = 4000 if ctx.thorough else 250
     session = 0
@@ -1191,7 +1463,9 @@ def replay(ctx, path):
     if not inp:
         print(f"[C12] replay file names a broken obligation, not an input: {d.get('broken')}")
         return 1
-    if "history" in inp and d.get("key", "").startswith("instance-reuse-") and "constructor" in inp:
+    if "steps" in inp:
+        r = run_history(inp["steps"])
+    elif "history" in inp and d.get("key", "").startswith("instance-reuse-") and "constructor" in inp:
         pool_start()
         r = None
         try:
